@@ -251,5 +251,11 @@ def run(rep: Report, tier: str) -> None:  # noqa: C901
                                        f"`{kw} between {a[0]} {a[1]} and {b[0]} {b[1]}` (-1 = unbounded, 0 = current data point) is built as the frame {got6}; "
                                        f"expected {want6 if want6 is not None else 'a rejection'} (offsets relative to the current datapoint, start <= stop)"))
     rep.floor("R06.6 written frames evaluated", n66, 80)
+    # ---- R06.7 analytic windows order Time_Period components as text: one stored text per period, zero padded ----
+    rep.rule("R06.7", "every accepted spelling of a Time_Period is stored as the one canonical (zero padded) text, which ORDER BY / PARTITION BY then compare")
+    from sa import sqlx as _sqlx7
+    from sa.checks.c21 import spelling_grid
+    from sa.checks.c19 import period_limits
+    spelling_grid(rep, "R06.7", {k.lower(): v for k, v in _sqlx7.load_macros(P).items()}, period_limits(P))
     rep.assumptions = ["DuckDB's window functions of the same name implement the VTL analytic operators over the given OVER clause",
                        "grammar alternative <-> constructor method pairing (ANTLR naming)"]
